@@ -317,10 +317,33 @@ func cqRoot(p cqp) func() {
 			}
 		}
 		cb, cd := logIndex(log, "cancel begin"), logIndex(log, "cancel done")
+		rowsBeforeCancel := 0
+		for i := 0; i < len(log) && (cb < 0 || i < cb); i++ {
+			if log[i] == "ret Next true" {
+				rowsBeforeCancel++
+			}
+		}
+		// the call event of the Next call that returned false (len(log) when there is none)
+		finalNextCall := len(log)
+		for i := range log {
+			if log[i] == "ret Next false" {
+				for j := i; j >= 0; j-- {
+					if log[j] == "call Next" {
+						finalNextCall = j
+						break
+					}
+				}
+				break
+			}
+		}
 		atT, _ := errAfterT.Get()
 		cancelled := p.cancel
 		switch {
-		case cancelled && cd >= 0 && cd < tcall:
+		case cancelled && cd >= 0 && cd < tcall && (cd < finalNextCall || rowsBeforeCancel < fixtureRows(p.fixture)):
+			// (exempt: every matching row had been handed out and a Next call was already in
+			// progress when the context was cancelled — that call may have observed the natural
+			// end of the query first, so the terminal state was decided before the cancellation,
+			// whichever call returns first)
 			if !errors.Is(final, context.Canceled) {
 				vapi.Fail("C20: the caller context was cancelled before the terminal %s call began, but Err()=%v does not wrap context.Canceled", who, final)
 			}
